@@ -11,7 +11,8 @@ Mth(file, verb, route, hidden, deprecated, sec) ==
      ret |-> <<"error">>, errors |-> <<>>, response |-> 0, desc |-> ""]
 
 SecShapes == { <<>>, <<S("s1", <<>>)>>, <<S("s1", <<"r">>), S("s2", <<"w", "x">>)>>, <<S("s2", <<>>), S("s2", <<"r">>)>>, <<S("s2", <<"w">>), S("s1", <<>>)>>,
-               <<S("s2", <<"w", "x", "r", "w">>)>> }        \* (a scope listed twice among others: lists are kept as written)
+               <<S("s2", <<"w", "x", "r", "w">>)>>,         \* (a scope listed twice among others: lists are kept as written)
+               <<S("s2", <<"r", "w">>), S("s2", <<"r">>), S("s1", <<"r">>), S("s1", <<>>)>> }   \* one scheme again with fewer / no scopes: distinct alternatives
 SecShapesU == SecShapes \cup { <<S("s9", <<>>)>>, <<S("S1", <<"r">>)>> }       \* s9 is never declared; nor is S1 (names are case-sensitive)
 
 \* ---- C04: one route, every combination of the three security levels, enforce, default, declared/undeclared -------------
